@@ -22,8 +22,22 @@ claim("C19", "proof",
       "Trusted: g++ 12 / clang++ 14 front ends, the witness generator. Not decided: that the configurations then satisfy C01/C06/C13 (value-level).",
       "generated must-compile witness TUs per configuration + include-guard uniqueness", "DESIGN.md §2 C19")
 
+claim("C17", "other",
+      "Index-domain rule on the two export functions: each subscripted dimension of the returned per-particle array and of the per-leaf pointer arrays has a declared extent "
+      "(original index / value(N) / position in leaf) and each subscript a domain derived from its loop bound or from the original-index array; extent == domain per dimension, "
+      "the staging element type equals the tree's value type, the array is allocated with one entry per particle, the target/source tree forwards to the right tree; "
+      "must-compile witnesses for 1-6 data values, 0-4 result values, data type != real type. This is the whole content of 'entry i holds particle i's values' for every input.",
+      "Trusted: clang 14 + tbfscan; that applyToAllLeaves hands (header, original indexes, data pointers, result pointers) - checked against C06's construction clauses. Values stored at construction are C06's matter.",
+      "index-domain analysis (extent vs subscript domain) over the clang AST + arity witnesses", "DESIGN.md §2 C17")
+claim("C13", "other",
+      "Structural clauses of rebuild(): it instantiates for every shipped ordering/dimension (witnesses); its gather and scatter lambdas obey the index-domain rule and the scatter inverts the result gather with staging arrays of the tree's own value types; "
+      "its construction facts (sorter type and arguments, split size, every emplace_back / parent-index / leaf-index call with argument origins, flush condition, level interval) equal the constructor's; it starts from cleared containers. "
+      "Hence a rebuilt tree is produced by the same construction as a fresh one from the gathered particles. That moved particles land in the right leaf is the arithmetic of C06 and is not decided.",
+      "Trusted: clang 14 + tbfscan, origin resolver (rules/stages.py), g++ for witnesses.",
+      "index-domain + constructor/rebuild construction-fact comparison over argument origins + must-compile witnesses", "DESIGN.md §2 C13")
+
 _todo = "check not built yet in this round (see DESIGN.md §7 build order)"
-for p in ["C02","C06","C08","C09","C10","C11","C13","C14","C15","C17","C18","C20"]:
+for p in ["C02","C06","C08","C09","C10","C11","C14","C15","C18","C20"]:
     NA[p] = _todo
 NA["C01"] = "exactly-once is a counting statement over all particle sets, heights, dimensions and groupings; no lint/effect/type argument bounds the list-builder arithmetic. Structural prerequisites are decided under C02/C03/C08/C11/C12."
 NA["C04"] = "bound on a floating-point truncation error over all positions/heights/orders: nothing about it is visible in the shape of the code (accumulate clause is under C08, code conventions under C11)."
